@@ -2,7 +2,7 @@
 import json
 import random
 
-from .. import flow, corr_loop, oracles_sde as osde
+from .. import core, flow, corr_loop, oracles_sde as osde
 
 PROOFS = ['Tsv.Proofs.LoopCore', 'Tsv.Proofs.C14']
 TRUSTED = ["Lean 4.33 kernel + Mathlib", "adaptive loop model tied to the real integrate by correspondence (every trial: "
@@ -19,7 +19,7 @@ def run(rep, tier, seed):
     rep.ob('correspondence:integrate-adaptive', f"{c.get('cases', 0)} runs / {c.get('steps', 0)} solver calls", c['ok'],
            json.dumps(c.get('mismatches') or c.get('error', ''), default=str)[:1500])
     rep.cov['correspondence'] = {k: v for k, v in c.items() if k != 'mismatches'}
-    fails, st = osde.c14_search(rng, 25 if tier == 'quick' else 500)
+    fails, st = core.safe(osde.c14_search, rng, 25 if tier == 'quick' else 500)
     rep.ob('oracle:schedule-predicates-on-real-sdeint', f"{st['evals']} problems / {st['trials']} trials", not fails,
            json.dumps(fails[:1], default=str)[:1200])
     rep.cov['real_code_oracle'] = st
